@@ -250,8 +250,11 @@ def run_check(check_id, tier, repo, jobs, seed):
         "wall_s": round(wall, 2),
         "violations": len(new_viol),
     }
-    os.makedirs(os.path.join(common.VERIF, "evidence"), exist_ok=True)
-    with open(os.path.join(common.VERIF, "evidence", check_id + ".json"), "w") as f:
+    # evidence/ only ever describes runs against /repo itself; runs against a
+    # scratch tree (VERIF_REPO, used for seeded changes) go to evidence-scratch/
+    evdir = "evidence" if os.path.realpath(repo) == "/repo" else "evidence-scratch"
+    os.makedirs(os.path.join(common.VERIF, evdir), exist_ok=True)
+    with open(os.path.join(common.VERIF, evdir, check_id + ".json"), "w") as f:
         json.dump(common.jsonable(ev), f, indent=1, sort_keys=True)
     for s in skipped:
         print("NOTE: %s" % s)
